@@ -927,3 +927,17 @@ func fbNested(buf []byte, p *PFromBody) bool {
 		(p.Params.Offs == 0 || (fend(p.URI) < int(p.Params.Offs) && fend(p.Params) == fend(p.V))) &&
 		(p.Tag.Offs == 0 || (p.Params.Offs != 0 && p.Params.Offs <= p.Tag.Offs && fend(p.Tag) <= fend(p.Params)))
 }
+
+// ---- CSeq value: nesting of number and method inside the value (C05) ----
+
+func csNest(p *PCSeqBody, i int) bool {
+	return (p.state != csFoundDigit || (0 <= p.soffs && p.soffs < i)) &&
+		(p.state != csEndDigit || (p.CSeq == p.V && p.CSeq.Len > 0 && fend(p.V) <= i)) &&
+		(p.state != csFoundMethod || (p.CSeq == p.V && p.CSeq.Len > 0 && fend(p.V) <= p.soffs && p.soffs < i)) &&
+		(p.state != csEnd || csNested(p) && fend(p.V) <= i)
+}
+
+// csNested: the number starts the value, the method ends it, and the number ends before the method starts
+func csNested(p *PCSeqBody) bool {
+	return p.CSeq.Offs == p.V.Offs && p.CSeq.Len > 0 && fend(p.CSeq) <= int(p.Method.Offs) && p.Method.Len > 0 && fend(p.Method) == fend(p.V)
+}
